@@ -422,7 +422,8 @@ def merge(results: t.List[t.Dict[str, t.Any]]) -> t.Dict[str, t.Any]:
 
 def write_evidence(pid: str, tier: str, seed: int, prop: t.Any, m: t.Dict[str, t.Any], wall: float,
                    known_lines: t.List[str], violations: t.List[t.Dict[str, t.Any]], exhaustive: bool) -> str:
-    os.makedirs(os.path.join(ROOT, 'evidence'), exist_ok=True)
+    evdir = 'evidence' if not os.environ.get('PV_SELFTEST') else '.selftest-evidence'   # mutant runs are not evidence
+    os.makedirs(os.path.join(ROOT, evdir), exist_ok=True)
     samples: t.List[t.Any] = []
     for (k, v) in sorted(m['samples'].items()):
         for s in v:
@@ -455,7 +456,7 @@ def write_evidence(pid: str, tier: str, seed: int, prop: t.Any, m: t.Dict[str, t
     }
     if violations:
         ev['coverage']['violation_keys'] = [v['key'] for v in violations]
-    path = os.path.join(ROOT, 'evidence', f'{pid}.json')
+    path = os.path.join(ROOT, evdir, f'{pid}.json')
     tmp = path + '.tmp'
     with open(tmp, 'w', encoding='utf-8') as f:
         json.dump(ev, f, indent=1, ensure_ascii=True, default=str)
